@@ -154,7 +154,7 @@ theorem DecodeZigZag64_eq (fuel : Nat) (hf : 11 ≤ fuel) (p : Bytes) (hp : p.le
         simp [toResZ64, n_zero_iff, hn, this]
     | err => rw [hm] at h; simp at h
     | panic => rw [hm] at h; simp at h
-  | invalidVarint | unexpectedEOF | overflow =>
+  | invalidVarint | unexpectedEOF | overflow | other w =>
     simp only [toRes] at h
     cases hm : decodeVarint p with
     | ok r => rw [hm] at h; simp at h
@@ -188,7 +188,7 @@ theorem DecodeZigZag32_eq (fuel : Nat) (hf : 11 ≤ fuel) (p : Bytes) (hp : p.le
         simp [toResZ32, n_zero_iff, hn, this]
     | err => rw [hm] at h; simp at h
     | panic => rw [hm] at h; simp at h
-  | invalidVarint | unexpectedEOF | overflow =>
+  | invalidVarint | unexpectedEOF | overflow | other w =>
     simp only [toRes] at h
     cases hm : decodeVarint p with
     | ok r => rw [hm] at h; simp at h
